@@ -597,6 +597,9 @@ constexpr bool DetachValid(int wi, int a, int p, int r) {
   if (r != rV && r != rRV) {
     return false;  // core.hpp:366 Detach returns nothing
   }
+  if (WorldKind(wi) == kSO && a == aOn) {
+    return false;  // SharedFutureOn::Subscribe(f) hides SharedFutureBase::Subscribe(e, f)
+  }
   if ((p == pE || p == pX) && !WorldVoid(wi)) {
     return false;
   }
@@ -913,16 +916,27 @@ constexpr bool VarCombo(int k, int ik, int vs) {
   }
   return vs == 0;
 }
-constexpr bool VarN(int ik, int vs, int n) {
-#ifdef C20_VAR_LIGHT
-  if (ik != 0 || vs != 0) {
-    return n <= 5 || n == 8 || n == 16 || n == 17 || n == 32 || n == 33 || n == 64;
+// n = 1..kMaxN for futures of int (and for the variadic waits / awaits); the other input combinations instantiate
+// StaticCombinator / tuples whose compile time grows fast with n, so they are closed over a list of sizes
+constexpr int kHeavyN[] = {1, 2, 3, 4, 5, 8, 16, 17, 33};
+constexpr int HeavyIndex(int n) {
+  for (int j = 0; j < static_cast<int>(sizeof(kHeavyN) / sizeof(kHeavyN[0])); ++j) {
+    if (kHeavyN[j] == n) {
+      return j;
+    }
   }
-#endif
-  (void)ik;
-  (void)vs;
-  (void)n;
-  return true;
+  return -1;
+}
+constexpr bool VarN(int ik, int vs, int n) {
+  return (ik == 0 && vs == 0) || HeavyIndex(n) >= 0;
+}
+// which shard TU instantiates the variadic programs of (inputs, values, n)
+constexpr int VarShard(int ik, int vs, int n) {
+  if (ik == 0 && vs == 0) {
+    return n % C20_NSHARDS;
+  }
+  const int c = ik == 0 ? vs - 1 : ik + 1;  // (0,1) (0,2) (1,0) (2,0) -> 0 1 2 3
+  return (HeavyIndex(n) * 4 + c) % C20_NSHARDS;
 }
 
 // ------------------------------------------------------------------------------------------------ waits
@@ -1055,39 +1069,43 @@ struct Tables {
 };
 extern Tables g_tables;
 
-template <int N, int I>
+template <int Shard, int N, int I>
 void RegVarOne(Tables& t) {
   constexpr int k = I / 27;
   constexpr int p = I / 9 % 3;
   constexpr int ik = I / 3 % 3;
   constexpr int vs = I % 3;
   if constexpr (WhenValid(k, p) && VarCombo(k, ik, vs) && VarN(ik, vs, N)) {
-    t.when_var[k][p][ik][vs][N] = &WhenVar<k, p, ik, vs, N>;
-  }
-  if constexpr (I < 9) {
-    constexpr int fn = I / 3;
-    constexpr int wik = I % 3;
-    if constexpr (WaitValid(fn, wik)) {
-      t.wait_var[fn][wik][N] = &WaitVar<fn, wik, N>;
+    if constexpr (VarShard(ik, vs, N) == Shard) {
+      t.when_var[k][p][ik][vs][N] = &WhenVar<k, p, ik, vs, N>;
     }
   }
+  if constexpr (N % C20_NSHARDS == Shard) {
+    if constexpr (I < 9) {
+      constexpr int fn = I / 3;
+      constexpr int wik = I % 3;
+      if constexpr (WaitValid(fn, wik)) {
+        t.wait_var[fn][wik][N] = &WaitVar<fn, wik, N>;
+      }
+    }
 #if YACLIB_CORO != 0
-  if constexpr (I < 3 && N >= 2) {
-    t.await_var[I][N] = &AwaitVar<I, N>;
-  }
+    if constexpr (I < 3 && N >= 2) {
+      t.await_var[I][N] = &AwaitVar<I, N>;
+    }
 #endif
+  }
 }
-template <int N, int... I>
+template <int Shard, int N, int... I>
 void RegVarN(Tables& t, std::integer_sequence<int, I...>) {
-  (RegVarOne<N, I>(t), ...);
+  (RegVarOne<Shard, N, I>(t), ...);
 }
 template <int Shard, int... J>
 void RegVarShard(Tables& t, std::integer_sequence<int, J...>) {
-  (RegVarN<J * C20_NSHARDS + Shard + 1>(t, std::make_integer_sequence<int, 81>{}), ...);
+  (RegVarN<Shard, J + 1>(t, std::make_integer_sequence<int, 81>{}), ...);
 }
 template <int Shard>
 void RegisterVariadic(Tables& t) {
-  RegVarShard<Shard>(t, std::make_integer_sequence<int, (kMaxN - Shard - 1 + C20_NSHARDS) / C20_NSHARDS>{});
+  RegVarShard<Shard>(t, std::make_integer_sequence<int, kMaxN>{});
 }
 
 // shard TUs announce themselves through static registrars
